@@ -265,8 +265,13 @@ func (u *Unit) stmt(st *State, s ast.Stmt, c *Ctl, k func(*State)) {
 		for _, a := range x.Call.Args {
 			ev.expr(a)
 		}
-		if _, isLit := ast.Unparen(x.Call.Fun).(*ast.FuncLit); !isLit {
-			// go f(x): evaluate nothing else
+		if lit, isLit := ast.Unparen(x.Call.Fun).(*ast.FuncLit); isLit {
+			// variables of the enclosing function that the spawned body assigns may change at any time from now on
+			for o := range u.assignedIn(lit.Body) {
+				if old, ok := st.env[o]; ok && old.K != vFunc {
+					st.env[o] = u.freshValue(o.Type(), o.Name(), st)
+				}
+			}
 		}
 		u.ghostAt(st, "go#"+fmt.Sprint(u.goOrdOf(x)), x.Pos())
 		u.callSiteClauses(ev, "go#"+fmt.Sprint(u.goOrdOf(x)), nil, nil, nil)
@@ -1190,7 +1195,23 @@ func (u *Unit) selectStmt(st *State, x *ast.SelectStmt, c *Ctl, k func(*State)) 
 		s2 := st.clone()
 		s2.assume(a.ready)
 		cl := a.cl
-		run := func(s3 *State) { u.block(s3, cl.Body, c, k) }
+		armName := "?"
+		switch cs := cl.Comm.(type) {
+		case *ast.SendStmt:
+			armName = exprString(cs.Chan)
+		case *ast.ExprStmt:
+			if ue, ok := ast.Unparen(cs.X).(*ast.UnaryExpr); ok {
+				armName = exprString(ue.X)
+			}
+		case *ast.AssignStmt:
+			if ue, ok := ast.Unparen(cs.Rhs[0]).(*ast.UnaryExpr); ok {
+				armName = exprString(ue.X)
+			}
+		}
+		run := func(s3 *State) {
+			u.ghostAt(s3, "arm "+armName, cl.Colon+1)
+			u.block(s3, cl.Body, c, k)
+		}
 		switch s := cl.Comm.(type) {
 		case *ast.SendStmt:
 			e2 := u.ev(s2, s.Pos())
